@@ -34,7 +34,12 @@ pub fn run_case(case: &Case) -> Outcome {
     let mut o = Obs::new();
     match case {
         Case::Poly { complex, coef, x, h } => {
-            let (x, h) = (*x, *h);
+            let (x, hs) = (*x, *h);
+            // a negative step is a backward step: both formulas are even in h; the bounds use |h|
+            let h = hs.abs();
+            if hs < 0.0 {
+                o.label("negative-step");
+            }
             let deg = coef.len() - 1;
             o.label(format!("deg{deg}"));
             o.label(if *complex { "complex" } else { "real" });
@@ -43,10 +48,10 @@ pub fn run_case(case: &Case) -> Outcome {
             let s = abs_scale_c(&cc, x.abs() + 2.0 * h);
             let (d1, d2): (C64, C64) = if *complex {
                 let f = |t: f64| horner_c(&cc, c(t, 0.0));
-                (derivative::<C64>(f, x, h), second_derivative::<C64>(f, x, h))
+                (derivative::<C64>(f, x, hs), second_derivative::<C64>(f, x, hs))
             } else {
                 let f = |t: f64| horner(&cr, t);
-                (c(derivative::<f64>(f, x, h), 0.0), c(second_derivative::<f64>(f, x, h), 0.0))
+                (c(derivative::<f64>(f, x, hs), 0.0), c(second_derivative::<f64>(f, x, hs), 0.0))
             };
             let xc = c(x, 0.0);
             let t1 = horner_c(&deriv_coeffs_c(&cc, 1), xc);
@@ -107,11 +112,12 @@ pub fn run_case(case: &Case) -> Outcome {
             o.pass()
         }
         Case::Smooth { amp, a, phi, bmp, b, x, h } => {
-            let (amp, a, phi, bmp, b, x, h) = (*amp, *a, *phi, *bmp, *b, *x, *h);
+            let (amp, a, phi, bmp, b, x, hs) = (*amp, *a, *phi, *bmp, *b, *x, *h);
+            let h = hs.abs();
             o.label("smooth");
             let f = move |t: f64| amp * (a * t + phi).sin() + bmp * (b * t).exp();
-            let d1 = derivative::<f64>(f, x, h);
-            let d2 = second_derivative::<f64>(f, x, h);
+            let d1 = derivative::<f64>(f, x, hs);
+            let d2 = second_derivative::<f64>(f, x, hs);
             let t1 = amp * a * (a * x + phi).cos() + bmp * b * (b * x).exp();
             let t2 = -amp * a * a * (a * x + phi).sin() + bmp * b * b * (b * x).exp();
             let emax = |w: f64| (b * (x - w)).exp().max((b * (x + w)).exp());
@@ -138,7 +144,8 @@ pub fn run_case(case: &Case) -> Outcome {
             o.pass()
         }
         Case::Linear { coef, a, b, alpha, beta, x, h } => {
-            let (a, b, alpha, beta, x, h) = (*a, *b, *alpha, *beta, *x, *h);
+            let (a, b, alpha, beta, x, hs) = (*a, *b, *alpha, *beta, *x, *h);
+            let h = hs.abs();
             o.label("linear");
             let cf = coef.clone();
             let f = move |t: f64| horner(&cf, t);
@@ -146,10 +153,10 @@ pub fn run_case(case: &Case) -> Outcome {
             let cf2 = coef.clone();
             let comb = move |t: f64| alpha * horner(&cf2, t) + beta * ((a * t).sin() + (b * t).exp());
             let s = alpha.abs() * abs_scale(coef, x.abs() + 2.0 * h) + beta.abs() * (1.0 + (b * (x - 2.0 * h)).exp().max((b * (x + 2.0 * h)).exp()));
-            let l1 = derivative::<f64>(&comb, x, h);
-            let r1 = alpha * derivative::<f64>(&f, x, h) + beta * derivative::<f64>(&g, x, h);
-            let l2 = second_derivative::<f64>(&comb, x, h);
-            let r2 = alpha * second_derivative::<f64>(&f, x, h) + beta * second_derivative::<f64>(&g, x, h);
+            let l1 = derivative::<f64>(&comb, x, hs);
+            let r1 = alpha * derivative::<f64>(&f, x, hs) + beta * derivative::<f64>(&g, x, hs);
+            let l2 = second_derivative::<f64>(&comb, x, hs);
+            let r2 = alpha * second_derivative::<f64>(&f, x, hs) + beta * second_derivative::<f64>(&g, x, hs);
             let q1 = ratio((l1 - r1).abs(), K1 * EPS * s / h);
             let q2 = ratio((l2 - r2).abs(), K2 * EPS * s / (h * h));
             o.set("ratio_lin_first", q1);
@@ -172,10 +179,15 @@ fn coef_strategy(max_deg: usize) -> BoxedStrategy<Vec<(f64, f64)>> {
         .boxed()
 }
 
+/// step 10^[-3,-0.3], one in four negative (backward)
+fn step() -> BoxedStrategy<f64> {
+    (gen::logu(-3.0, -0.3), prop_oneof![3 => Just(1.0), 1 => Just(-1.0)]).prop_map(|(h, s)| h * s).boxed()
+}
+
 fn strategy(_t: Tier) -> BoxedStrategy<Case> {
-    let poly = (any::<bool>(), coef_strategy(6), gen::fl(-3.0, 3.0), gen::logu(-3.0, -0.3))
+    let poly = (any::<bool>(), coef_strategy(6), gen::fl(-3.0, 3.0), step())
         .prop_map(|(complex, coef, x, h)| Case::Poly { complex, coef, x, h });
-    let smooth = (gen::fl(-2.0, 2.0), gen::fl(0.2, 3.0), gen::fl(0.0, 6.0), gen::fl(-2.0, 2.0), gen::fl(-1.5, 1.5), gen::fl(-3.0, 3.0), gen::logu(-3.0, -0.3))
+    let smooth = (gen::fl(-2.0, 2.0), gen::fl(0.2, 3.0), gen::fl(0.0, 6.0), gen::fl(-2.0, 2.0), gen::fl(-1.5, 1.5), gen::fl(-3.0, 3.0), step())
         .prop_map(|(amp, a, phi, bmp, b, x, h)| Case::Smooth { amp, a, phi, bmp, b, x, h });
     let lin = (
         coef_strategy(4),
@@ -184,7 +196,7 @@ fn strategy(_t: Tier) -> BoxedStrategy<Case> {
         gen::fl(-3.0, 3.0),
         gen::fl(-3.0, 3.0),
         gen::fl(-3.0, 3.0),
-        gen::logu(-3.0, -0.3),
+        step(),
     )
         .prop_map(|(coef, a, b, alpha, beta, x, h)| Case::Linear { coef: coef.into_iter().map(|p| p.0).collect(), a, b, alpha, beta, x, h });
     prop_oneof![6 => poly, 2 => smooth, 2 => lin].boxed()
@@ -205,7 +217,7 @@ pub fn run(opts: &Opts) -> i32 {
     spec.cases = opts.tier.pick(600_000, 20_000_000);
     spec.essential = vec![("deg4", 0.02), ("deg5", 0.02), ("deg3", 0.02), ("complex", 0.1), ("smooth", 0.05), ("linear", 0.05)];
     spec.rule = format!(
-        "generated: polynomials of degree 0..6 (real and complex coefficients in [-3,3]), x in [-3,3], h in 10^[-3,-0.3]; oracle: exact term-wise derivative; D f - f' must equal -h^4 f^(5)(x)/30 (zero up to degree 4) within {K1} eps S/h, D2 f - f'' must equal h^2 f^(4)(x)/12 (zero up to degree 3) within {K2} eps S/h^2, S = sum|c_k|(|x|+2h)^k; degree 6 and A sin(ax+phi)+B exp(bx): classical remainder bounds; linearity of both formulas. Non-trivial = polynomial degree >= 2, every smooth and linearity case. Distinct = distinct case JSON."
+        "generated: polynomials of degree 0..6 (real and complex coefficients in [-3,3]), x in [-3,3], |h| in 10^[-3,-0.3] with a quarter of the steps negative (both formulas are even in h); oracle: exact term-wise derivative; D f - f' must equal -h^4 f^(5)(x)/30 (zero up to degree 4) within {K1} eps S/h, D2 f - f'' must equal h^2 f^(4)(x)/12 (zero up to degree 3) within {K2} eps S/h^2, S = sum|c_k|(|x|+2h)^k; degree 6 and A sin(ax+phi)+B exp(bx): classical remainder bounds; linearity of both formulas. Non-trivial = polynomial degree >= 2, every smooth and linearity case. Distinct = distinct case JSON."
     );
     spec.assumptions = vec!["libm sin/exp accurate to a few ulp".into(), "harness Horner evaluation error is covered by the rounding allowance".into()];
     run_spec(spec, opts)
